@@ -17,6 +17,22 @@ var c08Paths = []string{"/p", "/a%20b", "/%C3%BCn%C3%AF", "/a/../b", "//dbl", "/
 var c08Queries = []string{"", "next=https://app.example.com/cb", "file=a/../b", "p=a/./b", "dir=/x/", "u=//host/p", "a=1&b=2", "x=%23frag", "q=a+b", "k=v&k=w", "e=", "%zz", "redir=/elsewhere", "a=b=c&&", "u=%C3%BC", strings.Repeat("k=v&", 200) + "z=1"}
 
 func c08Unit(c *RunCtx, unit int) {
+	if unit >= 4 {
+		// the same refusal under concurrency: one middleware instance, many anonymous clients at once
+		r := Rng(c.Seed, "C08", unit)
+		msg, n, err := gateBurst(r.Int63(), unit%2 == 1, 8, tierN(c.Tier, 150, 1500))
+		if err != nil {
+			c.Stats.Inconclusive = append(c.Stats.Inconclusive, "server: "+err.Error())
+			return
+		}
+		c.Stats.Evaluations += n
+		c.Stats.Add("concurrent-refusals", n)
+		if msg != "" {
+			v := vio("C08", "redirect-carries-another-requests-target|concurrent", "%s (one middleware instance serving 8 clients at once)", msg)
+			c.Stats.Violations = append(c.Stats.Violations, sim.VioRec{Violation: *v, Index: unit})
+		}
+		return
+	}
 	// unit encodes (mount, mode); every unit enumerates the remaining 864 cells completely
 	mounts := []string{"", "/auth"}
 	mount := mounts[unit%2]
@@ -200,10 +216,10 @@ func c08Judge(w *world.World, rec *world.Rec, uid string, half, two bool, reqs, 
 func init() {
 	register(&Check{
 		ID: "C08", Level: "exploration", Exhaustive: true,
-		Rule:        "complete enumeration of the truth table: session uid {absent, unknown to storage, known} x halfauth mark x 2FA mark x requirement bits {0,1,2,3} x refusal mode {404, redirect, 401} x mountPathed (and, for the two refusal modes they can express, the deprecated bool-flag wrappers Middleware/MountedMiddleware against the same table) x Mount {'', '/auth'} x storage outcome {ok, generic error, not-found} x body mode {form, JSON} = 3456 cells, every one executed against the real MountedMiddleware2 behind LoadClientStateMiddleware with hand-made server-side session contents; each cell with the plain target plus 5 seeded targets from a corpus of hostile paths (spaces, non-ASCII, dot segments, double slashes, 300-byte paths, encoded '/', '?', ';') and queries ('&', '=', '%23', '+', repeated keys, bad escapes, 800 bytes, an own redir=). Oracle: handler ran <=> known user & requirements & storage ok; otherwise exactly 404 / 401 / redirect to <Mount>/login whose decoded redir equals path[+mount]?rawquery / 500 on storage error. exhaustive=true refers to the cell table; targets are sampled. distinct_nontrivial = distinct (cell → outcome) pairs.",
-		Units:       func(t string) int { return 4 },
+		Rule:        "complete enumeration of the truth table: session uid {absent, unknown to storage, known} x halfauth mark x 2FA mark x requirement bits {0,1,2,3} x refusal mode {404, redirect, 401} x mountPathed (and, for the two refusal modes they can express, the deprecated bool-flag wrappers Middleware/MountedMiddleware against the same table) x Mount {'', '/auth'} x storage outcome {ok, generic error, not-found} x body mode {form, JSON} = 3456 cells, every one executed against the real MountedMiddleware2 behind LoadClientStateMiddleware with hand-made server-side session contents; each cell with the plain target plus 5 seeded targets from a corpus of hostile paths (spaces, non-ASCII, dot segments, double slashes, 300-byte paths, encoded '/', '?', ';') and queries ('&', '=', '%23', '+', repeated keys, bad escapes, 800 bytes, an own redir=). Oracle: handler ran <=> known user & requirements & storage ok; otherwise exactly 404 / 401 / redirect to <Mount>/login whose decoded redir equals path[+mount]?rawquery / 500 on storage error. exhaustive=true refers to the cell table; targets are sampled. Two further units fire 8 anonymous clients x 150 (thorough: 1500) requests concurrently at ONE redirect-mode middleware instance behind a real server: each must be redirected with its own target. distinct_nontrivial = distinct (cell → outcome) pairs.",
+		Units:       func(t string) int { return 6 },
 		Run:         c08Unit,
-		Floors:      func(t string) map[string]int { return map[string]int{"cells": 3456, "deprecated-api-cells": 2304} },
+		Floors:      func(t string) map[string]int { return map[string]int{"cells": 3456, "deprecated-api-cells": 2304, "concurrent-refusals": 2000} },
 		Assumptions: []string{"for mountPathed routes the library path.Join()s mount and path; targets whose path that call would normalise (dot segments, '//', trailing '/') are only required to keep their query"},
 	})
 }
